@@ -159,6 +159,7 @@ impl Prop for C18 {
         p.with_needs = true;
         p.env_heavy = true;
         p.huge_kwh = 100_000;
+        p.fine = false;
         let cli_p = tier.pick(0.012, 0.02);
         (bf_case(p, 50), layout_s(), vec(meta_s(), 0..3), vec(comment_s(), 0..10), prop::bool::weighted(cli_p))
             .prop_map(|(base, layout, metas, comments, cli)| Case { base, layout, metas, comments, cli })
